@@ -405,8 +405,10 @@ def f14_fingerprint(case, idx):
     ops = case["ops"][:idx + 1]
     mf, dmf = mfun(case), dmfun(case)
     domained = case["kind"] in ("dm", "edm")
-    names = {x for op in ops if op[0] in (ADD, DEL, HAS) for x in op[1:3]} | {op[1] for op in ops if op[0] in (ROLES, USERS)}
-    doms = {(op[-1][0] if op[-1] else 0) for op in ops if op[0] in (ADD, DEL, HAS, ROLES, USERS)} if domained else {None}
+    # through the Enforcer every name of the case is a rule subject, hence known from the first enforce() on
+    src = case["ops"] if case["kind"] in ("erm", "edm") else ops
+    names = set(enforcer_names(src))
+    doms = {(op[-1][0] if op[-1] else 0) for op in src if op[0] in (ADD, DEL, HAS, ROLES, USERS)} if domained else {None}
     force = []
     for op in ops:
         if op[0] == ADD:
